@@ -11,15 +11,20 @@ from solvegen import type_range, leaves_of, all_fields
 
 
 class DynGen(solvegen.Gen):
-    def __init__(self, rnd, ninst=2):
+    def __init__(self, rnd, ninst=2, with_list=False):
         super().__init__(rnd, small=True, tree=True, hist=False, ninst=ninst)
+        self.with_list = with_list
 
     def gen_class(self, depth):
         rnd = self.rnd
         name = "K%d" % len(self.classes)
         c = {"name": name, "fields": [], "blocks": [], "pre_randomize": [], "post_randomize": []}
         self.classes.append(c)
-        c["fields"] = self.scalar_fields(rnd.choice([1, 2, 2, 3]) if depth == 0 else rnd.choice([1, 2, 2]))
+        c["fields"] = self.scalar_fields(rnd.choice([1, 2, 2, 3]) if depth == 0 else (rnd.choice([1, 2, 2]) if not self.with_list else 1))
+        if depth == 1 and self.with_list:
+            for f in c["fields"]:
+                if f["kind"] == "scalar":
+                    f["w"] = 2
         if not any(f["kind"] == "scalar" for f in c["fields"]):
             # every class needs a pivot field for its dynamic blocks
             c["fields"].append({"name": "f%d" % self.nfield, "kind": "scalar", "w": 3, "sg": False, "rand": True})
@@ -28,8 +33,15 @@ class DynGen(solvegen.Gen):
         if depth == 0:
             # one sub-class, instantiated once or twice: two instances of it live inside every root
             sub = self.gen_class(1)
-            for k in range(rnd.choice([1, 2, 2])):
+            for k in range(rnd.choice([1, 2, 2]) if not self.with_list else 1):
                 c["fields"].append({"name": "s%d" % self.nfield, "kind": "obj", "cls": sub["name"], "rand": rnd.random() < 0.93})
+                self.nfield += 1
+            if self.with_list:
+                # ... and 2-3 more of them in a list, with a non-random selector field used as an index
+                self.lname = "l%d" % self.nfield
+                self.ln = rnd.randint(2, 3)
+                c["fields"].append({"name": self.lname, "kind": "olist", "cls": sub["name"], "n": self.ln, "rand": True})
+                c["fields"].append({"name": "sel", "kind": "scalar", "w": 2, "sg": False, "rand": False, "init": rnd.randrange(self.ln)})
                 self.nfield += 1
         return c
 
@@ -86,6 +98,9 @@ class DynGen(solvegen.Gen):
             c["blocks"] = [{"name": "c0", "stmts": [(["expr", self.easy_rel()] if rnd.random() < 0.88 else self.stmt(1, False))
                                                     for _ in range(rnd.choice([0, 0, 1, 1, 2]))]}]
             c["blocks"] += self.pivot_blocks(c)
+            if self.with_list and c is self.classes[0] and rnd.random() < 0.7:
+                # an always-on block of the root that refers to the dynamic block of the element the selector field points at
+                c["blocks"].append({"name": "a_idx", "stmts": [["dynidx", [self.lname], ["sel"], rnd.choice(["d0", "d1", "d2"])]]})
             if rnd.random() < 0.3:
                 # an always-on block that refers to a dynamic block of its own object (named to sort before and after "d*")
                 # (d3 is never referenced inline: the statement objects of one block reach a rand set only once, and whether this
@@ -100,6 +115,9 @@ class DynGen(solvegen.Gen):
         out = [([], root)]
         for p in self.obj_paths(sc, root):
             out.append((list(p), self.class_at(sc, root, p)))
+        for f in all_fields(sc, root):
+            if f["kind"] == "olist":
+                out += [([f["name"], i], f["cls"]) for i in range(f["n"])]
         return out
 
     def bool_tree(self, targets, par, depth=2):
@@ -156,6 +174,8 @@ class DynGen(solvegen.Gen):
                 ops.append({"op": "new", "var": names[created], "cls": root["name"]})
                 created += 1
             v = rnd.choice(names[:created]) if rnd.random() < 0.5 else names[0]
+            if self.with_list and rnd.random() < 0.6:
+                ops.append({"op": "set", "var": v, "path": ["sel"], "value": rnd.randrange(self.ln)})
             self.fs = [(list(p), f) for p, f in leaves]
             inline = self.inline_set(sc, root["name"], k) if rnd.random() < 0.8 else None
             ops.append({"op": "randomize", "var": v, "inline": inline})
